@@ -171,7 +171,7 @@ def run_parser_groups(prop, tag, mods, spec_list, outcome, jobs=12, harness_time
         ov.cleanup()
 
 
-def run_toktrie_groups(prop, tag, want, outcome, with_svob=False, extra_specs=None, jobs=14, harness_timeout_s=600, select=None, tokenv=False):
+def run_toktrie_groups(prop, tag, want, outcome, with_svob=False, extra_specs=None, jobs=14, harness_timeout_s=600, select=None, tokenv=False, chop=False):
     from . import toktrie_props as tp
     import os
     from .common import VERIF
@@ -190,6 +190,12 @@ def run_toktrie_groups(prop, tag, want, outcome, with_svob=False, extra_specs=No
             ov.inject("toktrie/src/tokenv.rs", os.path.join(VERIF, "kani/toktrie/tokenv_h.rs"), "verif_kani")
             specs += [dict(name="tokenv::verif_kani::k19_2_parse_numeric_roundtrip", expect="pass", family="K19.2"),
                       dict(name="tokenv::verif_kani::c20_parse_numeric_arbitrary", expect="pass", family="C20")]
+        if chop:
+            try:
+                tp.inject_chop(ov)
+                specs += tp.CHOP_SPECS
+            except tp.ChopSliceError as ex:
+                outcome.inconclusive.append("chop_tokens slice: %s" % ex)
         if extra_specs:
             specs += extra_specs
         res, logp, wall, build_failed = e1.run_kani(ov, "toktrie", [s["name"] for s in specs], jobs=jobs, harness_timeout_s=harness_timeout_s, logname=tag)
